@@ -39,11 +39,11 @@ func (s *Server) parseArea(ovs []string, doClip bool) (vs []string, o geojson.Ob
 			return
 		}
 		var lat, lon float64
-		if lat, err = strconv.ParseFloat(slat, 64); err != nil {
+		if lat, err = parseFloat(slat); err != nil {
 			err = errInvalidArgument(slat)
 			return
 		}
-		if lon, err = strconv.ParseFloat(slon, 64); err != nil {
+		if lon, err = parseFloat(slon); err != nil {
 			err = errInvalidArgument(slon)
 			return
 		}
@@ -75,23 +75,23 @@ func (s *Server) parseArea(ovs []string, doClip bool) (vs []string, o geojson.Ob
 			return
 		}
 		var lat, lon, meters, b1, b2 float64
-		if lat, err = strconv.ParseFloat(slat, 64); err != nil {
+		if lat, err = parseFloat(slat); err != nil {
 			err = errInvalidArgument(slat)
 			return
 		}
-		if lon, err = strconv.ParseFloat(slon, 64); err != nil {
+		if lon, err = parseFloat(slon); err != nil {
 			err = errInvalidArgument(slon)
 			return
 		}
-		if meters, err = strconv.ParseFloat(smeters, 64); err != nil {
+		if meters, err = parseFloat(smeters); err != nil {
 			err = errInvalidArgument(smeters)
 			return
 		}
-		if b1, err = strconv.ParseFloat(sb1, 64); err != nil {
+		if b1, err = parseFloat(sb1); err != nil {
 			err = errInvalidArgument(sb1)
 			return
 		}
-		if b2, err = strconv.ParseFloat(sb2, 64); err != nil {
+		if b2, err = parseFloat(sb2); err != nil {
 			err = errInvalidArgument(sb2)
 			return
 		}
@@ -124,11 +124,11 @@ func (s *Server) parseArea(ovs []string, doClip bool) (vs []string, o geojson.Ob
 			return
 		}
 		var lat, lon, meters float64
-		if lat, err = strconv.ParseFloat(slat, 64); err != nil {
+		if lat, err = parseFloat(slat); err != nil {
 			err = errInvalidArgument(slat)
 			return
 		}
-		if lon, err = strconv.ParseFloat(slon, 64); err != nil {
+		if lon, err = parseFloat(slon); err != nil {
 			err = errInvalidArgument(slon)
 			return
 		}
@@ -136,7 +136,7 @@ func (s *Server) parseArea(ovs []string, doClip bool) (vs []string, o geojson.Ob
 			err = errInvalidNumberOfArguments
 			return
 		}
-		if meters, err = strconv.ParseFloat(smeters, 64); err != nil {
+		if meters, err = parseFloat(smeters); err != nil {
 			err = errInvalidArgument(smeters)
 			return
 		}
@@ -178,19 +178,19 @@ func (s *Server) parseArea(ovs []string, doClip bool) (vs []string, o geojson.Ob
 			return
 		}
 		var minLat, minLon, maxLat, maxLon float64
-		if minLat, err = strconv.ParseFloat(sminLat, 64); err != nil {
+		if minLat, err = parseFloat(sminLat); err != nil {
 			err = errInvalidArgument(sminLat)
 			return
 		}
-		if minLon, err = strconv.ParseFloat(sminLon, 64); err != nil {
+		if minLon, err = parseFloat(sminLon); err != nil {
 			err = errInvalidArgument(sminLon)
 			return
 		}
-		if maxLat, err = strconv.ParseFloat(smaxlat, 64); err != nil {
+		if maxLat, err = parseFloat(smaxlat); err != nil {
 			err = errInvalidArgument(smaxlat)
 			return
 		}
-		if maxLon, err = strconv.ParseFloat(smaxlon, 64); err != nil {
+		if maxLon, err = parseFloat(smaxlon); err != nil {
 			err = errInvalidArgument(smaxlon)
 			return
 		}
